@@ -5,8 +5,11 @@ package main
 // Each oracle takes an op line and its implementation result and says whether the *property* fails there.
 
 import (
+	"encoding/json"
 	"fmt"
 )
+
+var oracleJSON bool
 
 func runOracle(prop string, seed uint64, n int, maxFail int) int {
 	r := NewRng(seed ^ hashString(prop))
@@ -18,7 +21,12 @@ func runOracle(prop string, seed uint64, n int, maxFail int) int {
 		res := execOp(op)
 		if why := propertyFails(prop, op, res); why != "" {
 			fails++
-			fmt.Printf("FAIL %s :: %s :: %s => %s\n", prop, why, clip(op, 400), clip(res, 200))
+			if oracleJSON {
+				b, _ := json.Marshal(map[string]string{"op": op, "result": clip(res, 4000), "why": why})
+				fmt.Println(string(b))
+			} else {
+				fmt.Printf("FAIL %s :: %s :: %s => %s\n", prop, why, clip(op, 400), clip(res, 200))
+			}
 		}
 	})
 	if fails > 0 {
